@@ -594,6 +594,10 @@ def c15(ctx, api):
         acc.add('GenLet (duplicate names in one let, multi-select hashes) x %d evaluations' % reps, st, summ)
     finally:
         ctx['harness_env'] = {}
+    # ... nor on what an earlier call did to the caller's data: every history of two calls over all texts
+    consts = {'Emit': 'TRUE', 'Prop': '"C15"', 'MaxCalls': 2, 'MaxDocs': 6, 'NTexts': 200}
+    st, summ = api['run_tlc_to_harness'](ctx, 'api-mut', 'API', api_cfg(consts, 'MutSel', npool=3 if thorough else 1), timeout=3000)
+    acc.add('API.tla: every history of 2 calls over the reordering functions x aliasing / mixed sources: the second call sees what the first left behind', st, summ)
     # the outcome of a call must not depend on the calls made before it (process-wide state, caches)
     consts = {'Emit': 'TRUE', 'Prop': '"C15"', 'MaxCalls': 3 if thorough else 2, 'MaxDocs': 6, 'NTexts': 200}
     st, summ = api['run_tlc_to_harness'](ctx, 'api-space', 'API', api_cfg(consts, 'SpaceSel'), timeout=3000)
